@@ -554,6 +554,10 @@ pub fn plan(property: &str, tier: &str) -> Option<CheckSpec> {
             g3.max_len = if quick { 4 } else { 5 };
             g3.observe = true;
             let n3 = b.add_gen(&g3, 1, &[false], &rules, 3_000_000);
+            // captured sets pushed to spans with sampled and unsampled parents (and converted directly)
+            for c in [false, true] {
+                b.add_batch(late_push_programs().into_iter().map(|p| p.collector(1, true, 0)).collect(), c, false, &rules);
+            }
             rule_text = format!("generated programs mixing a sampled and an unsampled root with descendants through every path ({n1} + {n2} with detached sets + {n3} two-actor), context observed after every operation, x every placement of 1 collector cycle x configurations");
             bound_text = format!("<= 3 spans, 1 local span, 1 attachment, scope depth <= 2, <= {} operations", g.max_len);
         }
@@ -662,7 +666,15 @@ pub fn plan(property: &str, tier: &str) -> Option<CheckSpec> {
             g.collect_open = true;
             g.busy_wait_us = 150;
             g.max_len = if quick { 5 } else { 6 };
-            let n1 = b.add_gen(&g, if quick { 1 } else { 2 }, &[false], &rules, 3_000_000);
+            let mut n1 = b.add_gen(&g, 1, &[false], &rules, 3_000_000);
+            if !quick {
+                // two cycles anywhere, one operation shorter (the longer programs with two cycles
+                // do not fit the hour this tier is given)
+                let mut g5 = g.clone();
+                g5.name = "C18-2cycles".into();
+                g5.max_len = 5;
+                n1 += b.add_gen(&g5, 2, &[false], &rules, 3_000_000);
+            }
             // spans and local spans that stay open for more than a second
             b.add_batch(long_span_programs(), false, false, &rules);
             // captured sets with local spans still open at collect(), converted and pushed
